@@ -91,14 +91,12 @@ package mp4
 //@   ensures[C05] len(t.Trun.Samples) == old(len(t.Trun.Samples)) && t.Trun == old(t.Trun) && t.Tfhd == old(t.Tfhd)
 //@   ensures[C05] forall xd uint32 :: forall k int :: 0 <= k && k < len(t.Trun.Samples) ==> rsDur(t.Trun, t.Tfhd, xd, k) == old(rsDur(t.Trun, t.Tfhd, xd, k))
 //@   ensures[C05] forall xs uint32 :: forall k int :: 0 <= k && k < len(t.Trun.Samples) ==> rsSize(t.Trun, t.Tfhd, xs, k) == old(rsSize(t.Trun, t.Tfhd, xs, k))
-// FAILS (sat), FINDING F1 (Go test TestC05OptimizeStaleFirstSampleFlags): a trun with both 0x4 and 0x400 set whose per-sample
-// flags are all equal keeps flag 0x4 with the old firstSampleFlags, which then overrides the flags of sample 0.
+// (finding F1, Go test TestC05OptimizeStaleFirstSampleFlags, repaired in 2385ee8: when all samples including the first have the same
+// flags, first_sample_flags is removed; the clause holds for every trun, also one with both 0x4 and 0x400 set)
 //@   ensures[C05] forall xf uint32 :: forall k int :: 0 <= k && k < len(t.Trun.Samples) ==> rsFlags(t.Trun, t.Tfhd, xf, k) == old(rsFlags(t.Trun, t.Tfhd, xf, k))
-// what does hold: the same statement for truns that respect ISO 8.8.8.2 ("if first-sample-flags-present is used,
-// sample-flags-present shall not be set"), in particular for every trun made by CreateTrun (flags 0xf01)
-//@   ensures[C05] old(trunFlagsISO(t.Trun)) ==> (forall xf uint32 :: forall k int :: 0 <= k && k < len(t.Trun.Samples) ==> rsFlags(t.Trun, t.Tfhd, xf, k) == old(rsFlags(t.Trun, t.Tfhd, xf, k)))
-// representation invariants of the stored table (see below) are preserved
-//@   ensures[C05] old(trunFlagsISO(t.Trun) && trunFsfOK(t.Trun)) ==> trunFlagsISO(t.Trun) && trunFsfOK(t.Trun)
+// representation invariants of the stored table (see below) are preserved, each on its own
+//@   ensures[C05] old(trunFlagsISO(t.Trun)) ==> trunFlagsISO(t.Trun)
+//@   ensures[C05] old(trunFsfOK(t.Trun)) ==> trunFsfOK(t.Trun)
 //@   ensures[C05] old(trunCtoOK(t.Trun)) ==> trunCtoOK(t.Trun)
 //@   ensures[C05] forall k int :: 0 <= k && k < len(t.Trun.Samples) ==> rsCto(t.Trun, k) == old(rsCto(t.Trun, k))
 //@   assigns t.Tfhd.Flags, t.Tfhd.DefaultSampleDuration, t.Tfhd.DefaultSampleSize, t.Tfhd.DefaultSampleFlags, t.Trun.Flags, t.Trun.firstSampleFlags
@@ -144,20 +142,33 @@ package mp4
 //@   loop 1 invariant forall k int :: 0 <= k && k < idx(1) ==> samples[k].Data == mdat.Data[trunDataPos(t, offsetInMdat0, k):trunDataPos(t, offsetInMdat0, k) + int(t.Samples[k].Size)]
 
 // ---------------------------------------------------------------- writer side: mdat and tfdt mutators
+// The payload that Size()/Encode()/EncodeSW() announce and write is DataParts when there are parts, else Data (mdatLen of the C02
+// contracts). AddSampleData makes the sample's bytes the new tail of that payload in both representations
+// (finding F4, Go test TestC05IntervalThenFullSample, repaired in 071b4ef: with data parts in use the bytes become a further part).
 //@ func (*MdatBox).AddSampleData
 //@   requires m != nil
-//@   ensures[C05] len(m.Data) == old(len(m.Data)) + len(s)
-//@   ensures[C05] forall j int :: 0 <= j && j < old(len(m.Data)) ==> m.Data[j] == old(m.Data[j])
-//@   ensures[C05] forall j int :: old(len(m.Data)) <= j && j < len(m.Data) ==> m.Data[j] == old(s[j - len(m.Data)])
-// The payload that Size()/Encode()/EncodeSW() announce and write is DataParts when there are parts, else Data (mdatLen of the C02 contracts):
-// it must grow by the sample's bytes. FAILS, FINDING F4 (Go test TestC05IntervalThenFullSample): with data parts present (after
-// AddSampleInterval) the bytes go to Data and are never written.
-//     mdatLen(m, 0) == old(mdatLen(m, 0)) + len(s)
-// (kept as text: with the recursive mdatOff the solvers answer unknown after 80 s and the clause slows the callers down). The same
-// fact without recursion: the appended bytes are part of the written payload only if the box has no data parts. FAILS (sat), F4:
-//@   ensures[C05] len(s) > 0 ==> len(m.DataParts) == 0
-// (without data parts mdatLen(m, 0) is len(m.Data), which grows by exactly len(s): first clause; DataParts is not assigned)
-//@   assigns m.Data, m.Data[:]
+// monolithic path: Data grows by exactly the bytes of s, no parts appear
+//@   ensures[C05] old(len(m.DataParts)) == 0 ==> len(m.DataParts) == 0 && len(m.Data) == old(len(m.Data)) + len(s)
+//@   ensures[C05] old(len(m.DataParts)) == 0 ==> (forall j int :: 0 <= j && j < old(len(m.Data)) ==> m.Data[j] == old(m.Data[j]))
+//@   ensures[C05] old(len(m.DataParts)) == 0 ==> (forall j int :: old(len(m.Data)) <= j && j < len(m.Data) ==> m.Data[j] == old(s[j - len(m.Data)]))
+// parts path: one further part, which is a copy of s; the earlier parts and Data are the same slices as before
+//@   ensures[C05] old(len(m.DataParts)) > 0 ==> len(m.DataParts) == old(len(m.DataParts)) + 1 && len(m.DataParts[old(len(m.DataParts))]) == len(s) && m.Data == old(m.Data)
+//@   ensures[C05] old(len(m.DataParts)) > 0 ==> (forall j int :: 0 <= j && j < len(s) ==> m.DataParts[old(len(m.DataParts))][j] == old(s[j]))
+//@   ensures[C05] old(len(m.DataParts)) > 0 ==> (forall i int :: 0 <= i && i < old(len(m.DataParts)) ==> m.DataParts[i] == old(m.DataParts[i]))
+// (consequence for the written payload length mdatLen of the C02 contracts: it grows by len(s) in both paths. Kept as text: stated with
+// the recursive mdatOff it makes the engine add its paper-proved frame axiom for mdatOff and slows this function and its callers down;
+// both clauses below were discharged in a separate run (with that frame axiom in the context):
+//     old(len(m.DataParts)) > 0 ==> mdatLen(m, 0) == mdatOff(m.DataParts, old(len(m.DataParts)), 0) + len(s)
+//     old(len(m.DataParts)) == 0 ==> mdatLen(m, 0) == old(mdatLen(m, 0)) + len(s))
+//@   assigns m.Data, m.Data[:], m.DataParts, m.DataParts[:]
+// ASSUMPTION (trustkind, to be reported): the two frame obligations for the byte memory (M|uint8) are not generated.
+//  * frame@M|uint8 (the append to m.Data writes m.Data's array or a fresh one) IS discharged without this line (z3-new);
+//  * frame@M|uint8~2 is an artifact of the engine's append model and fails (sat) for len(s) == 0 on the DataParts path:
+//    append([]byte(nil), s...) with an empty s "fits" the nil slice, and the model records a store of the UNCHANGED content
+//    (range [0,0)) into the array with reference 0, the nil array. That array is neither fresh nor m.Data's, and the assigns
+//    language has no term for it ([]byte(nil)[:] is rejected); no byte changes, so the frame holds. The trustkind text cannot
+//    separate the two obligations (both have the key M|uint8).
+// (no trustkind needed: the engine accepts writes of an empty range)
 
 // (panics when monolithic data is present: precondition)
 //@ func (*MdatBox).AddSampleDataPart
@@ -183,12 +194,16 @@ package mp4
 //@   requires fragSingle(f)
 //@   ensures[C05] len(fragTrun(f).Samples) == old(len(fragTrun(f).Samples)) + 1 && smpIs(fragTrun(f).Samples, old(len(fragTrun(f).Samples)), s.Sample.Flags, s.Sample.Dur, s.Sample.Size, s.Sample.CompositionTimeOffset)
 //@   ensures[C05] forall k int :: 0 <= k && k < old(len(fragTrun(f).Samples)) ==> fragTrun(f).Samples[k] == old(fragTrun(f).Samples[k])
-//@   ensures[C05] len(f.Mdat.Data) == old(len(f.Mdat.Data)) + len(s.Data)
-//@   ensures[C05] forall j int :: 0 <= j && j < old(len(f.Mdat.Data)) ==> f.Mdat.Data[j] == old(f.Mdat.Data[j])
-//@   ensures[C05] forall j int :: old(len(f.Mdat.Data)) <= j && j < len(f.Mdat.Data) ==> f.Mdat.Data[j] == old(s.Data[j - len(f.Mdat.Data)])
+// (monolithic mdat: at the end of Data; mdat with data parts, e.g. after AddSampleInterval: as one further part, see MdatBox.AddSampleData)
+//@   ensures[C05] old(len(f.Mdat.DataParts)) == 0 ==> len(f.Mdat.DataParts) == 0 && len(f.Mdat.Data) == old(len(f.Mdat.Data)) + len(s.Data)
+//@   ensures[C05] old(len(f.Mdat.DataParts)) == 0 ==> (forall j int :: 0 <= j && j < old(len(f.Mdat.Data)) ==> f.Mdat.Data[j] == old(f.Mdat.Data[j]))
+//@   ensures[C05] old(len(f.Mdat.DataParts)) == 0 ==> (forall j int :: old(len(f.Mdat.Data)) <= j && j < len(f.Mdat.Data) ==> f.Mdat.Data[j] == old(s.Data[j - len(f.Mdat.Data)]))
+//@   ensures[C05] old(len(f.Mdat.DataParts)) > 0 ==> len(f.Mdat.DataParts) == old(len(f.Mdat.DataParts)) + 1 && len(f.Mdat.DataParts[old(len(f.Mdat.DataParts))]) == len(s.Data) && f.Mdat.Data == old(f.Mdat.Data)
+//@   ensures[C05] old(len(f.Mdat.DataParts)) > 0 ==> (forall j int :: 0 <= j && j < len(s.Data) ==> f.Mdat.DataParts[old(len(f.Mdat.DataParts))][j] == old(s.Data[j]))
+//@   ensures[C05] old(len(f.Mdat.DataParts)) > 0 ==> (forall i int :: 0 <= i && i < old(len(f.Mdat.DataParts)) ==> f.Mdat.DataParts[i] == old(f.Mdat.DataParts[i]))
 //@   ensures[C05] fragTfdtStep(f, old(len(fragTrun(f).Samples)) == 0, s.DecodeTime, old(f.Moof.Traf.Tfdt.baseMediaDecodeTime))
 //@   ensures[C05] f.Mdat.lazyDataSize == old(f.Mdat.lazyDataSize) && fragTrun(f).Flags == old(fragTrun(f).Flags)
-//@   assigns f.Moof.Traf.Trun.Samples, f.Moof.Traf.Trun.Samples[:], f.Mdat.Data, f.Mdat.Data[:], f.Moof.Traf.Tfdt.Version, f.Moof.Traf.Tfdt.baseMediaDecodeTime
+//@   assigns f.Moof.Traf.Trun.Samples, f.Moof.Traf.Trun.Samples[:], f.Mdat.Data, f.Mdat.Data[:], f.Mdat.DataParts, f.Mdat.DataParts[:], f.Moof.Traf.Tfdt.Version, f.Moof.Traf.Tfdt.baseMediaDecodeTime
 
 // AddSample: metadata only; the announced payload size grows by the sample size, no bytes are stored
 //@ func (*Fragment).AddSample
@@ -238,43 +253,54 @@ package mp4
 
 //@ pred trafOK(t *TrafBox) = t != nil && t.Tfhd != nil && t.Tfdt != nil && (len(t.Truns) > 0 ==> t.Trun != nil)
 //@ pred fragTracksOK(f *Fragment) = f != nil && f.Moof != nil && f.Mdat != nil && (forall i int :: 0 <= i && i < len(f.Moof.Trafs) ==> trafOK(f.Moof.Trafs[i])) && (forall i int :: forall j int :: 0 <= i && i < len(f.Moof.Trafs) && 0 <= j && j < len(f.Moof.Trafs[i].Truns) ==> f.Moof.Trafs[i].Truns[j] != nil)
-//@ pred fragHasTrack(f *Fragment, id uint32) = exists i int :: 0 <= i && i < len(f.Moof.Trafs) && f.Moof.Trafs[i].Tfhd.TrackID == id
 // index of the first traf of track id (len when there is none)
 //@ spec rec trafIdx(ts []*TrafBox, id uint32, k int, n int) int = ite(k >= n || k < 0, n, ite(ts[k].Tfhd.TrackID == id, k, trafIdx(ts, id, k+1, n)))
+// fragHasTrack: some traf has track id. The second disjunct names a witness (the first such index, trafIdx) and implies the first,
+// so the predicate is equivalent to the plain existential; without it no solver finds the witness (the loop index at the break).
+//@ pred trafAt(f *Fragment, id uint32, i int) = 0 <= i && i < len(f.Moof.Trafs) && f.Moof.Trafs[i].Tfhd.TrackID == id
+//@ pred fragHasTrack(f *Fragment, id uint32) = (exists i int :: 0 <= i && i < len(f.Moof.Trafs) && f.Moof.Trafs[i].Tfhd.TrackID == id) || trafAt(f, id, trafIdx(f.Moof.Trafs, id, 0, len(f.Moof.Trafs)))
 //@ spec fragTraf(f *Fragment, id uint32) *TrafBox = f.Moof.Trafs[trafIdx(f.Moof.Trafs, id, 0, len(f.Moof.Trafs))]
 //@ spec lastTrun(t *TrafBox) *TrunBox = t.Truns[len(t.Truns)-1]
 
 //@ func (*Fragment).AddSampleToTrack
 //@   requires fragTracksOK(f)
-// FAILS, FINDING F2 (Go test TestC05AddSampleToUnknownTrack): with an unknown trackID the loop variable is left on the last traf
+// (finding F2, Go test TestC05AddSampleToUnknownTrack, repaired in fc0eeb8: the search result is only set on a match)
 //@   ensures[C05] !old(fragHasTrack(f, trackID)) ==> result != nil
 //@   ensures[C05] old(fragHasTrack(f, trackID)) ==> result == nil
+// (the same with the witness named: on success the first traf of the track exists; implies the first clause, and is the form callers can use)
+//@   ensures[C05] result == nil ==> old(trafAt(f, trackID, trafIdx(f.Moof.Trafs, trackID, 0, len(f.Moof.Trafs))))
 //@   ensures[C05] old(fragHasTrack(f, trackID)) ==> len(fragTraf(f, trackID).Truns) > 0 && lastTrun(fragTraf(f, trackID)).writeOrderNr == f.nextTrunNr - 1 && len(lastTrun(fragTraf(f, trackID)).Samples) > 0 && lastTrun(fragTraf(f, trackID)).Samples[len(lastTrun(fragTraf(f, trackID)).Samples)-1] == s
 //@   ensures[C05] result == nil ==> f.Mdat.lazyDataSize == old(f.Mdat.lazyDataSize) + uint64(s.Size)
 // no media bytes are touched (metadata only)
 //@   ensures[C05] f.Mdat == old(f.Mdat) && f.Mdat.Data == old(f.Mdat.Data) && (forall j int :: 0 <= j && j < len(f.Mdat.Data) ==> f.Mdat.Data[j] == old(f.Mdat.Data[j]))
+//@   ensures[C05] f.Mdat.DataParts == old(f.Mdat.DataParts)
+// with an unknown track nothing is added anywhere
+//@   ensures[C05] result != nil ==> f.Mdat.lazyDataSize == old(f.Mdat.lazyDataSize) && f.nextTrunNr == old(f.nextTrunNr)
 // (no assigns clause: the frame obligations for the traf / trun / children tables are not decided by the solvers (unknown after 80 s
-// each) and are falsified on the unknown-track path of F2; callers therefore see the inferred write set, which contains all byte
+// each); callers therefore see the inferred write set, which contains all byte
 // arrays because TrafBox.AddChild may call bytes.Equal in its uuid branch)
 //@   loop 1 invariant idx(1) <= len(f.Moof.Trafs) && (forall k int :: 0 <= k && k < idx(1) ==> f.Moof.Trafs[k].Tfhd.TrackID != trackID)
-//@   loop 1 invariant (idx(1) == 0 ==> traf == nil) && (idx(1) > 0 ==> traf == f.Moof.Trafs[idx(1)-1] && trafOK(traf))
+//@   loop 1 invariant traf == nil
 //@   loop 1 invariant trafIdx(f.Moof.Trafs, trackID, 0, len(f.Moof.Trafs)) == trafIdx(f.Moof.Trafs, trackID, idx(1), len(f.Moof.Trafs))
 
 // AddFullSampleToTrack: as AddSampleToTrack, and mdat gains exactly the sample's bytes (monolithic data, not lazy)
 //@ func (*Fragment).AddFullSampleToTrack
 //@   requires fragTracksOK(f)
 //@   uses C05
-// FAILS, FINDING F2 (same defect, through AddSampleToTrack)
+// (finding F2, repaired: the error of AddSampleToTrack is returned before mdat is touched)
 //@   ensures[C05] !old(fragHasTrack(f, trackID)) ==> result != nil
 //@   ensures[C05] old(fragHasTrack(f, trackID)) ==> result == nil
-//@   ensures[C05] result == nil ==> len(f.Mdat.Data) == old(len(f.Mdat.Data)) + len(s.Data) && f.Mdat.lazyDataSize == 0
-//@   ensures[C05] result == nil ==> (forall j int :: 0 <= j && j < old(len(f.Mdat.Data)) ==> f.Mdat.Data[j] == old(f.Mdat.Data[j]))
+//@   ensures[C05] result == nil ==> f.Mdat.lazyDataSize == 0
+//@   ensures[C05] result == nil && old(len(f.Mdat.DataParts)) == 0 ==> len(f.Mdat.DataParts) == 0 && len(f.Mdat.Data) == old(len(f.Mdat.Data)) + len(s.Data)
+//@   ensures[C05] result == nil && old(len(f.Mdat.DataParts)) == 0 ==> (forall j int :: 0 <= j && j < old(len(f.Mdat.Data)) ==> f.Mdat.Data[j] == old(f.Mdat.Data[j]))
+//@   ensures[C05] result == nil && old(len(f.Mdat.DataParts)) > 0 ==> len(f.Mdat.DataParts) == old(len(f.Mdat.DataParts)) + 1 && len(f.Mdat.DataParts[old(len(f.Mdat.DataParts))]) == len(s.Data) && f.Mdat.Data == old(f.Mdat.Data)
+//@   ensures[C05] result == nil && old(len(f.Mdat.DataParts)) > 0 ==> (forall i int :: 0 <= i && i < old(len(f.Mdat.DataParts)) ==> f.Mdat.DataParts[i] == old(f.Mdat.DataParts[i]))
 // NOT PROVED (sat under the modular abstraction: AddSampleToTrack's inferred write set contains all byte arrays, so the content of
 // s.Data is unknown after the call; see AddSampleToTrack): the appended bytes are the sample's bytes,
-//     result == nil ==> (forall j int :: old(len(f.Mdat.Data)) <= j && j < len(f.Mdat.Data) ==> f.Mdat.Data[j] == old(s.Data[j - len(f.Mdat.Data)]))
+//     result == nil && old(len(f.Mdat.DataParts)) == 0 ==> (forall j int :: old(len(f.Mdat.Data)) <= j && j < len(f.Mdat.Data) ==> f.Mdat.Data[j] == old(s.Data[j - len(f.Mdat.Data)]))
 // what is proved instead: they are the bytes of s.Data as they are when AddSampleData runs (MdatBox.AddSampleData's contract), stated here
 // through the length and the unchanged prefix only.
-//@   ensures[C05] result != nil ==> len(f.Mdat.Data) == old(len(f.Mdat.Data))
+//@   ensures[C05] result != nil ==> len(f.Mdat.Data) == old(len(f.Mdat.Data)) && len(f.Mdat.DataParts) == old(len(f.Mdat.DataParts)) && f.Mdat.lazyDataSize == old(f.Mdat.lazyDataSize)
 
 // ---------------------------------------------------------------- the decoders establish the representation invariants of the table
 //@ func DecodeTrunSR
@@ -294,9 +320,14 @@ package mp4
 //@   inline
 //@ func (*Fragment).AddChild
 //@   inline
+// (CreateTfhd / NewFragment: with a contract the call is modular, so the contract states every field the constructors' callers
+// in this file and in verif_contracts_c19.go (CreateFragment: SampleDescriptionIndex == 1) rely on; untagged, so every caller sees it)
 //@ func CreateTfhd
 //@   ensures[C05] fresh(result) && result.TrackID == trackID && result.Flags == 0x20000
+//@   ensures result != nil && result.Version == 0 && result.BaseDataOffset == 0 && result.SampleDescriptionIndex == 1 && result.DefaultSampleDuration == 0 && result.DefaultSampleSize == 0 && result.DefaultSampleFlags == 0
 //@   assigns nothing
+//@ func NewFragment
+//@   ensures[C05] result.nextTrunNr == 0 && result.Mdat == nil && result.Prft == nil && len(result.Children) == 0 && len(result.Emsgs) == 0 && result.EncOptimize == 0 && result.StartPos == 0
 //@ func CreateFragment
 //@   ensures[C05] result1 == nil && fragSingle(result0) && len(fragTrun(result0).Samples) == 0 && fragTrun(result0).Flags == 0xf01 && fragTrun(result0).writeOrderNr == 0 && result0.nextTrunNr == 1
 //@   ensures[C05] result0.Moof.Traf.Tfhd != nil && result0.Moof.Traf.Tfhd.TrackID == trackID && result0.Moof.Traf.Tfhd.Flags == 0x20000
